@@ -279,6 +279,21 @@ class HTTPChannel(wasyncore.dispatcher):
 
             while outbuflen > 0:
                 chunk = outbuf.get(self.sendbuf_len)
+
+                if not chunk:
+                    # the buffer cannot deliver the bytes it accounted for
+                    # (a file handed to wsgi.file_wrapper that was truncated
+                    # after its size was taken): the response can not be
+                    # completed, so give the connection up rather than
+                    # polling a socket forever that nothing is ever sent to
+                    self.logger.warning(
+                        "Output buffer ended before its announced length, "
+                        "closing connection"
+                    )
+                    self.will_close = True
+                    dobreak = True
+
+                    break
                 num_sent = self.send(chunk, do_close=do_close)
 
                 if num_sent:
